@@ -421,7 +421,7 @@ func main() {
 	r.Trusted("walletdb/bdb transaction rollback (C11)")
 	dir, _ := os.MkdirTemp("", "c19")
 	defer os.RemoveAll(dir)
-	r.Parallel("tables", r.N(8, 200), evid.Workers(), func(i int, cs int64) {
+	r.Parallel("tables", r.N(8, 1200), evid.Workers(), func(i int, cs int64) {
 		rg := rand.New(rand.NewSource(cs))
 		path := filepath.Join(dir, fmt.Sprintf("m-%d-%d.db", os.Getpid(), cs))
 		db, err := walletdb.Create("bdb", path, true, 10*time.Second, false)
@@ -434,7 +434,7 @@ func main() {
 			tableCase(r, db, rg, t, cs)
 		}
 	})
-	r.Parallel("real", r.N(4, 40), evid.Workers(), func(i int, cs int64) { realCase(r, dir, cs) })
+	r.Parallel("real", r.N(4, 160), evid.Workers(), func(i int, cs int64) { realCase(r, dir, cs) })
 	r.Require("upgrade-runs", 1000)
 	r.Require("failure-positions-enumerated", 300)
 	r.Require("newer-database-refused", 30)
